@@ -8,6 +8,8 @@
     partial <key record text> | full <key record text>
     new <m:int> <k> (<kr>)*k <checksum> <sort:0|1>                     → descriptor dump
     addr <m:int> <k> (<kr>)*k <sort:0|1> <offset> <change:0|1> <sortkeys:0|1>
+    new_via_parser <m:int> <k> (<full key record text>)*k <sort>       parse_any_key_record on each text, then the
+                                                                       constructor (the coordinator flow) → descriptor dump
     repr <m:int> <k> (<kr>)*k <sort>                                   → str(descriptor)
     addr_raw <m> <net> <k> (<kr>)*k <offset> <change> <sortkeys>        get_address on the attributes as given
                                                                        (an object whose key_records were mutated)
@@ -86,6 +88,16 @@ def handle : List String → String
           let d ← construct h256 m krs [] srt
           let a ← getAddress h256 s256 hmac h160 d off chg sk
           pure (fmtS a)
+      | _ => none
+  | "new_via_parser" :: m :: toks => optS do
+      let m ← parseInt m
+      let (texts, rest) ← parseCounted (fun ts => match ts with | t :: r => (parseS t).map (·, r) | [] => none) toks
+      match rest with
+      | [srt] =>
+        let srt ← parseBool srt
+        pure <| orReject do
+          let krs ← texts.mapM (parseFullKeyRecord h256 hmac h160)
+          (construct h256 m krs [] srt).map dump
       | _ => none
   | "repr" :: m :: toks => optS do
       let m ← parseInt m
